@@ -131,6 +131,9 @@ fn side_by_side(case: &Case, want_batch: Option<bool>) -> Verdict {
     Holds
 }
 
+/// set while a found failure is shrunk / re-evaluated and while a case file is replayed: sampled sub-checks always run
+pub static FORCE_ALL: std::sync::atomic::AtomicBool = std::sync::atomic::AtomicBool::new(false);
+
 pub fn c01(case: &Case) -> Verdict {
     match side_by_side(case, None) {
         Holds => {}
@@ -140,7 +143,8 @@ pub fn c01(case: &Case) -> Verdict {
     // sibling.  The harness systems really borrow their declared resources; every system stays 1 ms inside run so that
     // the groups of a stage overlap.  A panic here is reported by the caller (`guarded`) as the C01 violation it is.
     static N: std::sync::atomic::AtomicUsize = std::sync::atomic::AtomicUsize::new(0);
-    if N.fetch_add(1, std::sync::atomic::Ordering::SeqCst) % 3 != 0 {
+    // (every third case while searching; always once a failure is being shrunk or a case file is replayed)
+    if !FORCE_ALL.load(std::sync::atomic::Ordering::SeqCst) && N.fetch_add(1, std::sync::atomic::Ordering::SeqCst) % 3 != 0 {
         return Holds;
     }
     let (mut live, _) = match prepared(case) {
